@@ -65,9 +65,16 @@ class Proxy:
         return fwd, exc
 
 
-def viewer_handshake(r, password_required=False):
-    """(bytes, description) of what a viewer sends before its first message, for each banner x security combination"""
+def viewer_handshake(r, password_required=False, odd=False):
+    """(bytes, description) of what a viewer sends before its first message, for each banner x security combination.
+    odd: a version line the recorder does not know (Apple's 003.889, 004.000, ...): the relay must not care"""
     ver = r.choice([b"003", b"003", b"005", b"007", b"008", b"008"])
+    if odd:
+        ver = r.choice([b"889", b"006", b"009"])
+        banner = r.choice([b"RFB 003." + ver + b"\n", b"RFB 004.000\n", b"RFB 003.8\n\n\n"])
+        t = r.choice([1, 2, 16])
+        body = bytes([t]) + (bytes(r.randrange(256) for _ in range(16)) if t == 2 else b"")
+        return banner + body + bytes([r.randrange(2)]), "odd version " + banner.decode().strip()
     banner = b"RFB 003." + ver + b"\n"
     if ver in (b"003", b"005"):
         sec = b""
